@@ -34,16 +34,32 @@ Proof.
   apply Z.eqb_eq in H1, H2, H3. auto.
 Qed.
 
-(* ---- core select *)
-Lemma ffcs_check :
-  forallb (fun m => (field (ffcs_arg1 m) 24 8 =? NN_FFCS) && (field (ffcs_arg1 m) 0 18 =? m)) (zrange 262144) = true.
-Proof. vm_cast_no_check (eq_refl true). Qed.
+(* ---- core select: an 18-bit mask under the command byte (bit reasoning; 2^18 cases are too many to
+   enumerate) *)
+Lemma lor_shiftl_add : forall a k m, 0 <= k -> 0 <= m < 2 ^ k -> Z.lor (Z.shiftl a k) m = a * 2 ^ k + m.
+Proof.
+  intros a k m Hk Hm. rewrite Z.shiftl_mul_pow2 by exact Hk.
+  assert (Hl : Z.land (a * 2 ^ k) m = 0).
+  { apply Z.bits_inj'. intros n Hn. rewrite Z.land_spec, Z.bits_0.
+    destruct (Z.lt_ge_cases n k) as [Hlt|Hge].
+    - rewrite Z.mul_pow2_bits_low by exact Hlt. reflexivity.
+    - destruct (Z.eq_dec m 0) as [->|Hm0]; [rewrite Z.bits_0; apply andb_false_r|].
+      rewrite (Z.bits_above_log2 m n); [apply andb_false_r|lia|].
+      apply Z.log2_lt_pow2; [lia|]. apply Z.lt_le_trans with (2 ^ k); [lia|].
+      apply Z.pow_le_mono_r; lia. }
+  rewrite <- Z.lxor_lor by exact Hl. symmetry. apply Z.add_nocarry_lxor. exact Hl.
+Qed.
 
 Lemma ffcs_fields : forall m, 0 <= m < 262144 ->
   field (ffcs_arg1 m) 24 8 = NN_FFCS /\ field (ffcs_arg1 m) 0 18 = m.
 Proof.
-  intros m Hm. pose proof (forallb_zrange _ _ m ffcs_check ltac:(simpl; lia)) as H. cbv beta in H.
-  apply andb_prop in H. destruct H as [H1 H2]. apply Z.eqb_eq in H1, H2. auto.
+  intros m Hm. unfold ffcs_arg1, field.
+  rewrite (lor_shiftl_add 7 24 m) by (try lia; change (2 ^ 24) with 16777216; lia).
+  change (2 ^ 24) with 16777216. change (2 ^ 8) with 256. change (2 ^ 0) with 1. change (2 ^ 18) with 262144.
+  unfold NN_FFCS. split.
+  - rewrite Z.div_add_l by lia. rewrite (Z.div_small m) by lia. reflexivity.
+  - rewrite Z.div_1_r. replace (7 * 16777216 + m) with (m + 448 * 262144) by lia.
+    rewrite Z_mod_plus_full. apply Z.mod_small. lia.
 Qed.
 
 (* ---- data *)
